@@ -376,6 +376,10 @@ class AndRestriction(base):
             #           raise NotImplementedError("negation for dnf_solutions on "
             #                 "AndRestriction isn't implemented yet")
             # hack- this is an experiment
+            if not self.restrictions:
+                # not (all-of nothing) can never be satisfied; an empty any-of would claim the opposite
+                yield [restriction.AlwaysBool(self.type, negate=False)]
+                return
             yield from OrRestriction(
                 *[restriction.Negate(x) for x in self.restrictions],
                 node_type=self.type,
